@@ -94,6 +94,14 @@ M = [
     ("c09_no_future_clear", "C09", "client/client.go", "\t// cancel all futures\n\tc.futureStore.Clear()\n", "\t// cancel all futures\n\tif closeConn {\n\t\tc.futureStore.Clear()\n\t}\n"),
     ("c09_delete_on_pubrec", "C09", "client/client.go", "\t// overwrite stored Publish with the Pubrel packet\n\terr := c.Session.SavePacket(session.Outgoing, pubrel)", "\t// overwrite stored Publish with the Pubrel packet\n\terr := c.Session.DeletePacket(session.Outgoing, id)"),
     ("c09_resend_no_dup", "C09", "client/client.go", "\t\t\t// set the dup flag on a publish packet\n\t\t\tpublish.Dup = true\n\t\t}\n\n\t\t// resend packet", "\t\t\t// set the dup flag on a publish packet\n\t\t\tpublish.Dup = false\n\t\t}\n\n\t\t// resend packet"),
+    # ---- C17
+    ("c17_no_resubscribe", "C17", "client/service.go", "\t\tif s.ResubscribeAllSubscriptions {\n", "\t\tif s.ResubscribeAllSubscriptions && false {\n"),
+    ("c17_stop_keeps_futures", "C17", "client/service.go", "\tif clearFutures {\n\t\ts.futureStore.Protect(false)\n\t\ts.futureStore.Clear()\n\t}", "\tif clearFutures {\n\t\ts.futureStore.Protect(false)\n\t}"),
+    ("c17_suback_no_die", "C17", "client/client.go", "\t\t\t\treturn c.die(ErrFailedSubscription, true)", "\t\t\t\treturn ErrFailedSubscription"),
+    ("c17_put_no_cancel", "C17", "client/future/store.go", "\tif existing, ok := s.store[id]; ok && existing != future {\n\t\texisting.Cancel(nil)\n\t}\n", ""),
+    ("c17_unsub_not_forgotten", "C17", "client/service.go", "\t\t\t\tfor _, v := range cmd.topics {\n\t\t\t\t\ts.subscriptions.Empty(v)\n\t\t\t\t}\n", ""),
+    ("c17_gives_up", "C17", "client/service.go", "\t\tclient, resumed := s.connect(kill)\n\t\tif client == nil {\n\t\t\tcontinue\n\t\t}", "\t\tclient, resumed := s.connect(kill)\n\t\tif client == nil {\n\t\t\tif s.backoff.Attempt() > 2 {\n\t\t\t\treturn nil\n\t\t\t}\n\t\t\tcontinue\n\t\t}"),
+    ("c17_connack_race", "C17 C09 C15", "client/client.go", "\t// set state to connected\n\tatomic.StoreUint32(&c.state, clientConnected)\n\n\t// complete future\n\tc.connectFuture.Complete(connack)\n", "\t// set state to connected\n\tatomic.StoreUint32(&c.state, clientConnected)\n\n\t// complete future\n\tc.connectFuture.Complete(connack)\n\tpackets, _ = c.Session.AllPackets(session.Outgoing)\n"),
     # ---- C20
     ("c20_suback_reversed", "C20", "broker/client.go", "\t\tsuback.ReturnCodes[i] = subscription.QOS", "\t\tsuback.ReturnCodes[len(pkt.Subscriptions)-1-i] = subscription.QOS"),
     ("c20_ignore_unexpected", "C20 C14", "broker/client.go", "\tdefault:\n\t\terr = c.die(ClientError, ErrUnexpectedPacket)\n\t}\n\n\t// return eventual error", "\tdefault:\n\t}\n\n\t// return eventual error"),
